@@ -5,8 +5,9 @@
 //!       `Line::new(s, e).into_styled(PrimitiveStyle::with_stroke(c, w)).pixels()` in emission
 //!       order (format of `m_line::pts_digest`: full list up to 64 points, count + first + last +
 //!       order-sensitive hash beyond). The same op also draws the styled line into the recording
-//!       target `R1` and checks that `draw` emits exactly the same pixel sequence in one
-//!       `draw_iter` call.
+//!       target `R1`: the pixel MAP must be the one of `pixels()` (C01's text, class
+//!       `C01:pixels-vs-draw:thick-line`); that `draw` is ONE `draw_iter` call with the same pixel
+//!       SEQUENCE is validated in the check of C01 only, as `C01:tie-hypothesis:line-draw-is-one-draw_iter`.
 //!
 //!   thick.bbox x0 y0 x1 y1 w   -> `bounding_box()` of the same styled line (`styled_bounding_box`,
 //!       i.e. `Line::extents(w, StrokeOffset::None)`), as `x,y,w,h`; compared with
@@ -15,7 +16,7 @@
 //!
 //! Both streams are also generated as a SMALL SLICE (`generate_line_slice`, ~230 lines per stream) for the checks of
 //! C01, C02 and C07, whose theorems speak about the single stroked line (Props/C01/Line.lean ties to `thick.points` /
-//! `thick-draw-eq-pixels`; C02 to `C02:line-bbox-contains-pixels`; C07 to the moved line): under C07 every line is
+//! `C01:pixels-vs-draw:thick-line` / `C01:tie-hypothesis:line-draw-is-one-draw_iter`; C02 to `C02:line-bbox-contains-pixels`; C07 to the moved line): under C07 every line is
 //! followed by the same line with moved end points and the oracles `C07:thick-line-translate` (pixel sequence and
 //! picture of `translate` / `translate_mut` on the primitive and on the styled line = the shifted sequence) and
 //! `C07:thick-line-bbox-translate` (the box moves along; an empty box stays empty) run on each op.
@@ -85,7 +86,13 @@
 //!   zero-length lines (L2 = 0; the code strokes them as a horizontal line of length 0): the band /
 //!   ends / middle predicates are evaluated with d = (1, 0), L2 = 1, the direction the code uses.
 //!   C17:thick-width0          w = 0 yields no pixel
-//!   thick-draw-eq-pixels      `draw` = one `draw_iter` call with the sequence of `pixels()`
+//!   draw(): C17 speaks of "a stroked line", not of the calls draw() makes. When the pixels draw() writes (through the
+//!   trait defaults, in order) are not the sequence of `pixels()` - never on the unchanged tree, counter
+//!   `obs:thick:draw-write-sequence-differs-from-pixels` - the clauses above are evaluated on them as well.
+//!   C01:pixels-vs-draw:thick-line (counts for C01)   map(draw()) == map(pixels()); in the check of C01 also on the native
+//!                             target and on two bounded targets, with C01:default-vs-native:thick-line
+//!   C01:tie-hypothesis:line-draw-is-one-draw_iter (check of C01 only; a tie, not the text)
+//!                             `draw` = one `draw_iter` call with the sequence of `pixels()`
 //!
 //! Ranges. The code computes `length_squared` and `thickness_accumulator` in `i32` and (since /repo
 //! 2947525) `thickness_threshold` = (2w)^2 L2 in `i64`: what must hold is dx^2 + dy^2 < 2^31
